@@ -148,11 +148,23 @@ def check_pair(out: Outcome, rng, ref, test, nb, lines, expect) -> None:
                 else:
                     out.violation("JS: NaN for identical constant samples", r)
                 continue
+        if name == "js" and not math.isnan(want) and want <= 1e-7 and (math.isnan(got) or abs(got) <= 1e-7):
+            # JS = sqrt(sum/2): for (numerically) equal distributions the sum is 0 up to rounding, its square root amplifies 1e-16 to 1e-8 and a
+            # slightly negative sum gives NaN inside scipy.spatial.distance.jensenshannon
+            if math.isnan(got):
+                if "KF-C10-3" in out.findings:
+                    out.findings["KF-C10-3"].hits += 1
+                else:
+                    out.violation("js: NaN for (numerically) identical distributions", r)
+            continue
         if math.isnan(got) or not approx(got, want):
             out.violation(f"{name}: distance {got!r} differs from the textbook formula {want!r} (n={len(ref)}, m={len(test)}, num_bins={nb})", r)
             continue
         if got < -1e-12:
-            out.violation(f"{name}: negative distance {got!r}", r)
+            if name == "kl" and (min(ref) == max(ref) or min(test) == max(test)) and "KF-C10-2" in out.findings:
+                out.findings["KF-C10-2"].hits += 1
+            else:
+                out.violation(f"{name}: negative distance {got!r}", r)
         if name in ("hellinger", "bhattacharyya", "hi") and got > 1 + 1e-12:
             out.violation(f"{name}: distance {got!r} above its bound 1", r)
         if name == "js" and got > math.sqrt(math.log(2)) + 1e-12:
@@ -206,6 +218,13 @@ def run(out: Outcome) -> None:
         check_pair(out, rng, ref, test, rng.choice([2, 3, 5, 10, 17, 40]), lines, expect)
     if "KF-C10-1" in out.findings:
         check_pair(out, rng, [3.25] * 5, [3.25] * 5, 10, [], [])
+    if "KF-C10-3" in out.findings:
+        import json
+        from common import VERIF
+        w = json.loads((VERIF / "corpus" / "findings" / "KF-C10-3.json").read_text())
+        check_pair(out, rng, w["ref"], w["test"], w["num_bins"], [], [])
+    if "KF-C10-2" in out.findings:
+        check_pair(out, rng, [11.0, 10.8, 10.1, 10.9], [3.25] * 6, 2, [], [])
     res = run_driver(lines)
     for got, (name, val, r) in zip(res, expect):
         mv = math.inf if got == "inf" else h2f(got[1:])
